@@ -977,7 +977,93 @@ func (c *Ctx) scanMapOrder(d MapOrderDirective) ([]*Obligation, string) {
 					sort.Strings(acc)
 					ob2.Model = "range over a map appends what it meets to a slice and the function never sorts: the slice records Go's map order: " + strings.Join(acc, "; ")
 				}
+				// a sorted walk must sort on something that does not itself come from a map walk:
+				// the integer keys of the maps of this package are symbol numbers and hash codes,
+				// which are handed out while the builtins are interned in Go map order
+				if key != nil && ob2.Status == "ok" {
+					if bt, isBasic := key.Type().Underlying().(*types.Basic); isBasic && bt.Info()&types.IsInteger != 0 {
+						keyOnly := map[ssa.Value]bool{}
+						var mk func(v ssa.Value)
+						mk = func(v ssa.Value) {
+							if v == nil || keyOnly[v] || v.Referrers() == nil {
+								return
+							}
+							keyOnly[v] = true
+							for _, r := range *v.Referrers() {
+								switch x := r.(type) {
+								case *ssa.Convert, *ssa.ChangeType, *ssa.Phi:
+									mk(x.(ssa.Value))
+								case *ssa.Store:
+									if x.Val == v {
+										if ia, ok := x.Addr.(*ssa.IndexAddr); ok {
+											mk(ia.X)
+										}
+									}
+								case *ssa.Slice:
+									mk(x)
+								}
+							}
+						}
+						mk(key)
+						var numacc []string
+						for bb := range body {
+							for _, in2 := range bb.Instrs {
+								call, ok := in2.(*ssa.Call)
+								if !ok {
+									continue
+								}
+								if bi, ok := call.Call.Value.(*ssa.Builtin); ok && bi.Name() == "append" {
+									for _, a := range call.Call.Args[1:] {
+										if keyOnly[a] {
+											numacc = append(numacc, "append at "+c.posStr(call.Pos()))
+										}
+									}
+								}
+							}
+						}
+						if len(numacc) > 0 {
+							ob2.Status = "failed"
+							sort.Strings(numacc)
+							ob2.Model = "range over a map collects its integer keys (symbol numbers / hash codes, handed out in an order that itself comes from a map walk at interpreter creation): ordering by them is not reproducible: " + strings.Join(numacc, "; ")
+						}
+					}
+				}
 				out = append(out, ob2)
+				// traversal memory: a call inside the walk that is handed a value which remembers what
+				// has been met (declared by an orderstate directive) behaves differently for the
+				// entry met first, so the walk order leaks into the result even if it is sorted afterwards
+				ob3 := &Obligation{Name: fmt.Sprintf("%s#order.effect#%d", name, k-1), Kind: "order.effect", Fn: name, Backend: "ssa-scan", Status: "ok", Pos: c.posStr(nx.Pos())}
+				var eff []string
+				for bb := range body {
+					for _, in2 := range bb.Instrs {
+						ci, ok := in2.(ssa.CallInstruction)
+						if !ok {
+							continue
+						}
+						args := append([]ssa.Value{}, ci.Common().Args...)
+						for _, a := range args {
+							pt, ok := a.Type().Underlying().(*types.Pointer)
+							if !ok {
+								continue
+							}
+							nt, ok := pt.Elem().(*types.Named)
+							if !ok {
+								continue
+							}
+							for _, os := range c.cf.OrderState {
+								if nt.Obj().Name() == os {
+									eff = append(eff, fmt.Sprintf("%s gets the *%s at %s", calleeBareName(ci.Common()), os, c.posStr(in2.Pos())))
+								}
+							}
+						}
+					}
+				}
+				if len(eff) > 0 {
+					ob3.Status = "failed"
+					sort.Strings(eff)
+					ob3.Model = "a call inside a range over a map is handed traversal memory: what it does depends on which entry Go's map order presents first: " + strings.Join(eff, "; ")
+				}
+				out = append(out, ob3)
 			}
 		}
 	}
